@@ -159,7 +159,15 @@ def _select(ref, idx, top):
     """Common to every op that is `ds[index list]` underneath."""
     items = [ref.items[i] for i in idx]
     return ref.derive(items, top, sized=True, indexable=True, keyed=ref.keyed,
-                      items_mode=('yes' if ref.keyed else 'no'), lookup=ref.lookup)
+                      items_mode=_by_index_mode(ref), lookup=ref.lookup)
+
+
+def _by_index_mode(ref):
+    """items() of a stage that pairs keys() of its input with examples read by index: defined iff the input has
+    keys; cleanly undefined (-> eager cache falls back to a list) iff the input never had any."""
+    if ref.keyed:
+        return 'yes'
+    return 'undef' if ref.items_mode == 'undef' else 'no'
 
 
 def _combine_modes(parts):
@@ -344,7 +352,7 @@ def apply(ref, op):  # noqa: C901  (one flat dispatch on purpose: boring is the 
     if name == 'cache':
         if not ref.indexable:
             raise Refuse('cache needs an indexable input')
-        return ref.derive(ref.items, 'cache', items_mode=('yes' if ref.keyed else 'no'), lookup=ref.keyed)
+        return ref.derive(ref.items, 'cache', items_mode=_by_index_mode(ref), lookup=ref.keyed)
 
     if name == 'cache_eager':
         if not (ref.indexable or ref.ordered):
@@ -366,7 +374,7 @@ def apply(ref, op):  # noqa: C901  (one flat dispatch on purpose: boring is the 
             raise Refuse('catch iterates by index: needs len and indexing')
         items = [(k, v) for k, v in ref.items if not (isinstance(v, Err) and exc_matches(v.exc, caught))]
         return ref.derive(items, 'catch', sized=False, indexable=False, keyed=False,
-                          items_mode=('yes' if ref.keyed else 'no'), lookup=False)
+                          items_mode=_by_index_mode(ref), lookup=False)
 
     if name in ('copy', 'copy_freeze'):
         return ref.derive(ref.items, ref.top)
